@@ -1,18 +1,19 @@
 #!/bin/bash
 # Validate pending seeded changes against the current checks on the scratch worktree /tmp/mutv
-# (never on /repo). usage: tools/validate_pending.sh C01-1 C13-3 ...   -> /tmp/mutval/<seed>.log
+# (never on /repo). usage: tools/validate_pending.sh C01-1 C13-3 ...   -> /tmp/mutval${LANE:-}/<seed>.log
 # A seed whose patch.head.diff exists (hand-ported to HEAD) uses that instead of patch.diff.
-mkdir -p /tmp/mutval
-T=/tmp/mutv
+mkdir -p /tmp/mutval${LANE:-}
+T=/tmp/mutv${LANE:-}
+export VH_ALT=/tmp/vh-alt${LANE:-}
 [ -d $T ] || git -C /repo worktree add --detach $T >/dev/null 2>&1
 for s in "$@"; do
   d=/verif/seeded/pending/$s; [ -d $d ] || d=/verif/seeded/$s
   id=${s%%-*}
   git -C $T checkout -q --detach "$(git -C /repo rev-parse HEAD)" && git -C $T checkout -q -- . && git -C $T clean -fdq -e target
   p=$d/patch.diff; [ -f $d/patch.head.diff ] && p=$d/patch.head.diff
-  if ! git -C $T apply "$p" 2>/tmp/mutval/$s.apply; then echo "$s: PATCH DOES NOT APPLY"; continue; fi
-  /verif/tools/run_against.sh $T $id quick --budget 60 > /tmp/mutval/$s.log 2>&1; code=$?
-  sigs=$(grep '^   what:' /tmp/mutval/$s.log | grep -o '\[[^]]*\]$' | head -6 | tr '\n' ' ')
-  echo "$s: exit=$code viol=$(grep -c '^VIOLATION' /tmp/mutval/$s.log) $sigs"
+  if ! git -C $T apply "$p" 2>/tmp/mutval${LANE:-}/$s.apply; then echo "$s: PATCH DOES NOT APPLY"; continue; fi
+  /verif/tools/run_against.sh $T $id quick --budget 60 > /tmp/mutval${LANE:-}/$s.log 2>&1; code=$?
+  sigs=$(grep '^   what:' /tmp/mutval${LANE:-}/$s.log | grep -o '\[[^]]*\]$' | head -6 | tr '\n' ' ')
+  echo "$s: exit=$code viol=$(grep -c '^VIOLATION' /tmp/mutval${LANE:-}/$s.log) $sigs"
   git -C $T checkout -q -- . ; git -C $T clean -fdq -e target
 done
